@@ -42,10 +42,15 @@ func (i *ipfsAccessController) CanAppend(entry logac.LogEntry, p identityprovide
 	i.muWriteAccess.RLock()
 	defer i.muWriteAccess.RUnlock()
 
-	key := entry.GetIdentity().ID
+	identity := entry.GetIdentity()
+	if identity == nil {
+		return fmt.Errorf("entry has no identity")
+	}
+
+	key := identity.ID
 	for _, allowedKey := range i.writeAccess {
 		if allowedKey == key || allowedKey == "*" {
-			return p.VerifyIdentity(entry.GetIdentity())
+			return p.VerifyIdentity(identity)
 		}
 	}
 
